@@ -5,7 +5,7 @@ set -u
 SEED="$1"; PROP="$2"; TIER="${3:-quick}"
 if [ -n "$(git -C /repo status --porcelain)" ]; then echo "refusing: /repo is not clean"; exit 2; fi
 git -C /repo apply "$SEED/patch.diff" || { echo "patch does not apply"; exit 2; }
-cd /verif && ./check "$PROP" --tier "$TIER"; rc=$?
+cd "${VERIF_ROOT:-/verif}" && ./check "$PROP" --tier "$TIER"; rc=$?
 git -C /repo checkout -- .
 echo "check exit code with the seeded change: $rc"
 exit 0
